@@ -328,7 +328,10 @@ def run_errors(desc, obs):
         expect(RuntimeError, lambda: xitorch.LinearOperator.m(mc, is_hermitian=True), "complex_symmetric_flagged_hermitian")
         mh = m + m.T
         op = xitorch.LinearOperator.m(mh, is_hermitian=True)
-        obs.check(op.is_hermitian and op.H is op, "errors:hermitian_H", "Hermitian operator's .H is not itself")
+        # (the property does not ask for `op.H is op` - an earlier version of this check did and raised a false alarm when the
+        # adjoint of a dense Hermitian operator became a new object; what must hold is that .H describes the same matrix)
+        obs.check(op.is_hermitian and op.H.is_hermitian and torch.equal(op.H.fullmatrix(), mh), "errors:hermitian_H",
+                  "Hermitian operator's .H does not describe the same matrix")
         obs.check(xitorch.LinearOperator.m(mh).is_hermitian, "errors:auto_hermitian_detection", "Hermitian matrix not detected")
         obs.check(not xitorch.LinearOperator.m(m).is_hermitian, "errors:auto_hermitian_detection2", "non-Hermitian matrix flagged Hermitian")
         obs.check(not xitorch.LinearOperator.m(mc).is_hermitian, "errors:auto_hermitian_detection3", "complex symmetric matrix flagged Hermitian")
